@@ -74,7 +74,7 @@ func chainNonTrivial(chain []*MW) bool {
 }
 
 func runC04(e *Env) {
-	e.Rule = "registration programs (AST): Use / Group (nested to depth 4, via Group or Controller) / routes with variadic middleware and later Route.Use calls (immediately or at program end) / top-level Use before, between and after routes / NotFound / NotAllowed, HandleMethodNotAllowed on/off, cache off/on; every handler is a fresh closure calling Next 0, 1 or 2 times (main handlers too). One request per route + a not-found + a wrong-method request + an overlapping pair (a second request served by the same router while the first is parked inside one of its handlers); the recorded enter/leave trace must equal the onion interpreter's trace of the chain predicted by the reference scope model. Non-trivial: depth >= 2, Use after a route, sibling groups, or a 0/2-Next handler in the chain; distinct by (program, request). A third of the routers have served a request whose handler panicked (no hook, recovered by the caller) before. Every middleware closure comes from one function literal. Part long-chains: chains of 40..327 entries (global middleware on top of a full route chain), compared with the onion interpreter."
+	e.Rule = "registration programs (AST): Use / Group (nested to depth 4, via Group or Controller) / routes with variadic middleware and later Route.Use calls (immediately or at program end) / top-level Use before, between and after routes / NotFound / NotAllowed, HandleMethodNotAllowed on/off, cache off/on; every handler is a fresh closure calling Next 0, 1 or 2 times (main handlers too). One request per route + a not-found + a wrong-method request + an overlapping pair (a second request served by the same router while the first is parked inside one of its handlers); the recorded enter/leave trace must equal the onion interpreter's trace of the chain predicted by the reference scope model. Non-trivial: depth >= 2, Use after a route, sibling groups, or a 0/2-Next handler in the chain; distinct by (program, request). A third of the routers have served a request whose handler panicked (no hook, recovered by the caller) before. Every middleware closure comes from one function literal. Part long-chains: chains of 40..327 entries (global middleware on top of a full route chain), compared with the onion interpreter. A group may contain one route whose own path is just a variable (GET(\"/{id:[0-9]{3}}\") inside Group(\"/g1\")): its literal head is the group prefix, which is also the beginning of the heads of everything nested below."
 	e.Assumptions = []string{
 		"the 40-line scope model + 15-line onion interpreter in harness/mon/prog.go are the trusted statement of the documented order",
 		"the generated programs keep chains short; the part long-chains drives chains of 40..327 entries (global + group + route middleware + main handler; a route's own chain stays within the registration limit of 63, the global middleware is not counted by it) in which nobody aborts",
@@ -447,7 +447,7 @@ func tail(s []string, n int) []string {
 // ---------------------------------------------------------------------------
 
 func runC12(e *Env) {
-	e.Rule = "registration programs with emphasis on scope: Group/Controller nested to depth 5 with clean prefixes (also spelled without leading / with trailing slash; '' and '/' at top level), sibling groups with different middleware, Use between two routes of one group, routes before/inside/between/after groups, and a uniquely named PROBE route registered right after every Group return. Observed: Route.Path() and len(Route.Handlers()) right after registration and at the end, the enter/leave trace of one request per route at the model's full path, and 404 for the route's path without its prefixes. Oracle: reference scope model (prefix concatenation, middleware in effect at registration time, state restored after Group returns). Non-trivial: >= 2 sibling groups, a route after a Group return, or a Use inside a group; distinct by program. A fifth of the programs run on a StrictLastSlash router with route paths ending in a slash."
+	e.Rule = "registration programs with emphasis on scope: Group/Controller nested to depth 5 with clean prefixes (also spelled without leading / with trailing slash; '' and '/' at top level), sibling groups with different middleware, Use between two routes of one group, routes before/inside/between/after groups, and a uniquely named PROBE route registered right after every Group return. Observed: Route.Path() and len(Route.Handlers()) right after registration and at the end, the enter/leave trace of one request per route at the model's full path, and 404 for the route's path without its prefixes. Oracle: reference scope model (prefix concatenation, middleware in effect at registration time, state restored after Group returns). Non-trivial: >= 2 sibling groups, a route after a Group return, or a Use inside a group; distinct by program. A fifth of the programs run on a StrictLastSlash router with route paths ending in a slash. A group may contain one route whose own path is just a variable (GET(\"/{id:[0-9]{3}}\") inside Group(\"/g1\")): its literal head is the group prefix, which is also the beginning of the heads of everything nested below."
 	e.Assumptions = []string{
 		"group prefixes are clean non-root prefixes as in the property's quantifier ('' and '/' only for top-level groups)",
 		"the scope model in harness/mon/prog.go is the trusted statement of the documented group semantics",
